@@ -934,10 +934,7 @@ func TestVerifC01Lab(t *testing.T) {
 			b := fmt.Sprintf("(mk_labobs %s %s %s %s %d %s %s %s %s)", vC01Bool(cd), vC01Bool(do), vC01Bool(ad), vC01Bool(ed), m.Rcode,
 				vC01Bool(m.AuthenticatedData), vC01Bool(vC01HasEDE(m)), vC01Bool(dataOK), vC01Bool(tz.secure))
 			fkey := ""
-			switch {
-			case tam == "dnskey-extra-key":
-				fkey = "dnskey-rrset-signed-by-non-ds-key"
-			case topo == "shared-island":
+			if topo == "shared-island" {
 				fkey = "unsigned-ds-trust-link"
 			}
 			goFail := ""
